@@ -22,7 +22,14 @@ use serde_json::{Value, json};
 #[derive(Clone, Debug, Serialize, Deserialize)]
 pub enum Case {
     /// full message text; `written` = the generator's record of what was written (may be empty)
-    Message { mt: String, text: String, written: Vec<super::c03::WField> },
+    Message {
+        mt: String,
+        text: String,
+        written: Vec<super::c03::WField>,
+        /// placeholder scan only for inputs in which no empty component was written
+        #[serde(default)]
+        no_scan: bool,
+    },
     Field { ty: String, input: String, variant: Option<String> },
 }
 
@@ -62,7 +69,7 @@ fn scan_placeholders(ty: &str, j: &Value, l: &mut Local, case: &Case) {
 
 pub fn judge(_cfg: &Config, case: &Case, l: &mut Local, stratum: &str) {
     match case {
-        Case::Message { mt, text, written } => {
+        Case::Message { mt, text, written, no_scan } => {
             let ops = msg(mt).expect("type");
             let ty = format!("MT{mt}");
             let m = match guard(|| (ops.parse_full)(text)) {
@@ -112,7 +119,9 @@ pub fn judge(_cfg: &Config, case: &Case, l: &mut Local, stratum: &str) {
                 Err(_) => {}
             }
             if let Some(fj) = j.get("fields") {
-                scan_placeholders(&ty, fj, l, case);
+                if !*no_scan {
+                    scan_placeholders(&ty, fj, l, case);
+                }
                 for f in written {
                     match super::c03::locate(mt, fj, f) {
                         None => v(l, &ty, "occurrence-not-at-input-position", &f.tag, format!("{ty}: written field {} (sequence {:?}, repetition {}) is not at that position in the JSON", f.tag, f.seq_index, f.occurrence), case),
@@ -225,7 +234,7 @@ pub fn run(cfg: &Config) -> i32 {
                     super::c10::block2_output(lay.mt, k, [46, 47][k % 2])
                 ),
             };
-            let case = Case::Message { mt: lay.mt.to_string(), text, written: w.fields };
+            let case = Case::Message { mt: lay.mt.to_string(), text, written: w.fields, no_scan: false };
             let st = format!("MT{}/generated", lay.mt);
             if l.want_sample(&st) {
                 if let Case::Message { text, .. } = &case {
@@ -235,8 +244,21 @@ pub fn run(cfg: &Config) -> i32 {
             judge(cfg, &case, l, &st);
         } else if i < n_gen + ncorpus {
             let e = &c.entries[(i - n_gen) as usize];
-            let case = Case::Message { mt: e.mt.clone(), text: e.text.clone(), written: vec![] };
+            let case = Case::Message { mt: e.mt.clone(), text: e.text.clone(), written: vec![], no_scan: false };
             judge(cfg, &case, l, &format!("MT{}/corpus", e.mt));
+            // hostile-but-possibly-accepted variants: every spelling tweak of every field of the message
+            if let Some(b4) = corpus::block4_of(&e.text) {
+                let toks = tok::tokenize(&b4).fields;
+                for (fi, f) in toks.iter().enumerate() {
+                    for (lab, nc) in super::c02::tweaks(&f.content) {
+                        let mut fs = toks.clone();
+                        fs[fi].content = nc;
+                        let nb4 = format!("\n{}\n", tok::render(&fs, false, false));
+                        let case = Case::Message { mt: e.mt.clone(), text: e.text.replacen(b4.as_str(), &nb4, 1), written: vec![], no_scan: true };
+                        judge(cfg, &case, l, &format!("MT{}/tweak:{lab}", e.mt));
+                    }
+                }
+            }
         } else {
             let (tag, content) = &contents[(i - n_gen - ncorpus) as usize];
             let letter = tag.get(2..3).map(|s| s.to_string());
